@@ -499,6 +499,13 @@ func (s *StoreMon) WritePersistentState(st *pb.PersistentState) error {
 	return err
 }
 
+// SuccessCount returns the number of successful state writes.
+func (s *StoreMon) SuccessCount() int {
+	s.mu.Lock()
+	defer s.mu.Unlock()
+	return s.Success
+}
+
 // ---- the assembled store ----
 
 // Store is an assembled local store.
